@@ -1058,9 +1058,15 @@ def gen_cases(ck, info):
 
     pool_u = POOL + [None]
     # ---- Loop: carried values of every kind
-    for mod in defs.get("loop", []):
-        for car in lists_upto(POOL, maxlen_loop if mod in defs0.get("loop", []) else 2):
+    for k_mod, mod in enumerate(defs.get("loop", [])):
+        # exhaustive to the full length in the first defining module; the other modules (same accepted spec by
+        # `generated_good`): exhaustive to length 2 plus seeded lists of the full length (quick tier)
+        full = ck.thorough or k_mod == 0
+        for car in lists_upto(POOL, (maxlen_loop if full else 2) if mod in defs0.get("loop", []) else 2):
             cases.append(finish_case({"mod": mod, "ctor": "loop", "lists": {"v_initial": car}}, rng))
+        if not full:
+            for _ in range(200):
+                cases.append(finish_case({"mod": mod, "ctor": "loop", "lists": {"v_initial": rand_list(POOL, maxlen_loop)}}, rng))
         for _ in range(ck.pick(60, 300)):
             cases.append(finish_case({"mod": mod, "ctor": "loop", "lists": {"v_initial": rand_list(pool_u, 3)}}, rng))
         for _ in range(longer):
@@ -1103,10 +1109,15 @@ def gen_cases(ck, info):
                                       "ints": {"num_scan_inputs": rng.randrange(0, len(ops) + 1)}, "axes": None}, rng))
     # ---- SequenceMap
     for mod in defs.get("sequence_map", []):
-        for s in SEQS:
-            for ex in lists_upto(TENSORS + SEQS, maxlen_exh if mod in defs0.get("sequence_map", []) else 2):
+        for k_s, s in enumerate(SEQS):
+            full = ck.thorough or k_s == 0  # the extras are typed independently of the input sequence
+            for ex in lists_upto(TENSORS + SEQS, (maxlen_exh if full else 2) if mod in defs0.get("sequence_map", []) else 2):
                 cases.append(finish_case({"mod": mod, "ctor": "sequence_map", "singles": {"input_sequence": s},
                                           "lists": {"additional_inputs": ex}}, rng))
+            if not full:
+                for _ in range(150):
+                    cases.append(finish_case({"mod": mod, "ctor": "sequence_map", "singles": {"input_sequence": s},
+                                              "lists": {"additional_inputs": rand_list(TENSORS + SEQS, maxlen_exh)}}, rng))
         for _ in range(longer):
             cases.append(finish_case({"mod": mod, "ctor": "sequence_map", "singles": {"input_sequence": rng.choice(SEQS)},
                                       "lists": {"additional_inputs": rand_list(tensors_x + SEQS + [{"seq": T(8, (2,))}], rng.randrange(4, 6))}}, rng))
@@ -1533,6 +1544,177 @@ def prog_ctor(prog):
     return {"loop": "loop", "scan": "scan", "seqm": "sequence_map", "if_n": "if_", "if_m": "if_"}[prog[:4]]
 
 
+# ----------------------------------------------------------------------------- subgraph(types, fun) called directly
+DIRECT_OK = ["list", "tuple", "gen", "iter", "map", "dictkeys", "oneshot"]
+DIRECT_BAD = {"none": "notIterable", "int": "notIterable", "type": "notIterable", "listNonType": "hasNonType",
+              "str": "hasNonType", "listWithNone": "hasNonType", "genWithInt": "hasNonType"}
+
+
+def direct_cases(ck):
+    rng = ck.rng
+    lists = [[], [T(F32, (2,))], [T(F32, ()), {"seq": T(I64, (2,))}, {"opt": T(F32, (2,))}],
+             [T([F32, I64, I32, F64, BOOL][i % 5], (i + 1,)) for i in range(12)]]
+    cbs = [{"beh": "vars", "n": 2, "container": "list"}, {"beh": "vars", "n": 1, "container": "gen"},
+           {"beh": "vars", "n": 0, "container": "tuple"}, {"beh": "nonIterable", "n": 1, "variant": 1},
+           {"beh": "hasNonVar", "n": 2, "bad": "int", "pos": 1}, {"beh": "hasNonVar", "n": 3, "bad": "listOfVars", "pos": 0},
+           {"beh": "notCallable", "n": 0, "variant": 2}, {"beh": "raises", "n": 1}]
+    out = []
+    for cont in DIRECT_OK:
+        for tys in lists:
+            for cb in cbs:
+                out.append({"kind": "direct", "types": cont, "tys": tys, "cb": dict(cb)})
+    for bad in DIRECT_BAD:
+        for cb in (cbs[0], cbs[6]):
+            out.append({"kind": "direct", "types": bad, "tys": [T(F32, (2,))], "cb": dict(cb)})
+    for _ in range(ck.pick(30, 300)):
+        tys = [rng.choice(POOL + EXTRA_TYPES) for _ in range(rng.randrange(0, 6))]
+        out.append({"kind": "direct", "types": rng.choice(DIRECT_OK), "tys": tys, "cb": dict(rng.choice(cbs))})
+    return out
+
+
+def run_direct_case(env: Env, case):
+    """-> observation of one direct `subgraph(types, fun)` call (op = the first opset module)."""
+    op = env.mods[sorted(env.mods, key=lambda q: int(q[1:]))[0]]
+    sub = env.graph.subgraph
+    ts = [env.to_spox(d) for d in case["tys"]]
+    kind = case["types"]
+    if kind in DIRECT_OK:
+        obj = {"list": list, "tuple": tuple, "gen": lambda x: (t for t in x), "iter": iter, "map": lambda x: map(lambda t: t, x),
+               "dictkeys": lambda x: {t: 0 for t in x}.keys(), "oneshot": _OneShot}[kind](ts)
+        if kind == "dictkeys" and len(set(ts)) != len(ts):
+            obj = list(ts)
+    else:
+        obj = {"none": None, "int": 3, "type": ts[0], "listNonType": [1, 2], "str": "ab", "listWithNone": [ts[0], None],
+               "genWithInt": (x for x in [ts[0], 7])}[kind]
+    rec, counters = [], {}
+    fake = {"ctor": "loop", "cbs": {"body": case["cb"]}, "lists": {"v_initial": []}, "k_extra": 0, "rel": "same"}
+    fun = make_callback(env, op, "loop", fake, "body", rec, counters)
+    if case["cb"]["beh"] in ("vars", "hasNonVar"):
+        n = case["cb"]["n"]
+        inner = fun
+
+        def fun(*args):  # results unrelated to Loop's conventions: n constants (or the malformed list)
+            counters["body"] = counters.get("body", 0) + 1
+            rec.append(("body", args))
+            vs = [op.const(float(i)) for i in range(max(n, 3))]
+            if case["cb"]["beh"] == "hasNonVar":
+                vs = vs[:n]
+                vs[case["cb"]["pos"] % n] = 3 if case["cb"]["bad"] == "int" else [op.const(1.0), op.const(2.0)]
+                return vs
+            vs = vs[:n]
+            cont = case["cb"].get("container", "list")
+            return tuple(vs) if cont == "tuple" else ((v for v in vs) if cont == "gen" else vs)
+
+        del inner
+    obs = {"events": [], "fresh": True, "unnamed": True}
+    try:
+        with warnings.catch_warnings():
+            warnings.simplefilter("ignore")
+            g = sub(obj, fun)
+        obs["result"] = ("ok", len(g.requested_results), len(g.requested_arguments or ()))
+    except Exception as e:  # noqa: BLE001
+        obs["result"] = ("err", type(e).__name__, str(e)[:160])
+    for _role, args in rec:
+        obs["events"].append([env.from_spox(a.type) if isinstance(a, env.Var) else "non-var" for a in args])
+        for a in args:
+            if id(a) in env.seen_ids:
+                obs["fresh"] = False
+            env.seen_ids.add(id(a))
+            env.seen_vars.append(a)
+            if getattr(a, "_name", None) is not None:
+                obs["unnamed"] = False
+        if len({id(a) for a in args}) != len(args):
+            obs["fresh"] = False
+    obs["count"] = counters.get("body", 0)
+    return obs
+
+
+def judge_direct(case, obs):
+    """Model-free: the callback is invoked once with exactly the arguments `types` prescribes."""
+    bad = []
+    beh = case["cb"]["beh"]
+    res = obs["result"]
+    if case["types"] not in DIRECT_OK:
+        return bad  # malformed `types`: nothing is prescribed for the callback (model correspondence only)
+    want = case["tys"]
+    if obs["count"] > 1 or (beh != "notCallable" and obs["count"] != 1):
+        bad.append((f"subgraph:direct:count={obs['count']}", f"subgraph(types, fun) invoked fun {obs['count']} times"))
+    for types in obs["events"]:
+        if len(types) != len(want):
+            bad.append(("subgraph:direct:nargs", f"subgraph(<{case['types']} of {len(want)} types>, fun) called fun with {len(types)} arguments"))
+        elif types != want:
+            bad.append(("subgraph:direct:type", f"subgraph called fun with arguments typed {types}, types given: {want}"))
+    if not obs["fresh"]:
+        bad.append(("subgraph:direct:args:not-fresh", "an argument of a direct subgraph() call is not a fresh Var"))
+    if not obs["unnamed"]:
+        bad.append(("subgraph:direct:args:named", "an argument of a direct subgraph() call carries a name"))
+    if beh == "vars" and res[0] == "ok" and res[1] != case["cb"]["n"]:
+        bad.append(("subgraph:direct:out-count", f"callback returned {case['cb']['n']} Vars, the subgraph has {res[1]} results"))
+    if beh in ("notCallable", "nonIterable", "hasNonVar") and not (res[0] == "err" and res[1] == "TypeError"):
+        bad.append((f"subgraph:direct:bad-callback:{beh}:{res[1] if res[0] == 'err' else 'no exception'}",
+                    f"{beh} callback: expected TypeError, got {res[:2]}"))
+    return bad
+
+
+def direct_request(case):
+    kind = "ok" if case["types"] in DIRECT_OK else DIRECT_BAD[case["types"]]
+    cb = {"id": 0, "beh": case["cb"]["beh"], "n": case["cb"].get("n", 0)}
+    return {"direct": {"types": kind, "tys": case["tys"] if kind == "ok" else [], "cb": cb}}
+
+
+def compare_direct(case, obs, m):
+    if m is None or "error" in m:
+        return f"model error: {m}"
+    if [e["types"] for e in m["events"]] != obs["events"]:
+        return f"events differ: real={obs['events']} model={[e['types'] for e in m['events']]}"
+    res, mr = obs["result"], m["result"]
+    if "err" in mr:
+        want = {"TypeError": "TypeError", "AttributeError": "AttributeError", "Other": "_Boom"}[mr["err"]]
+        if not (res[0] == "err" and res[1] == want):
+            return f"model raises {mr['err']}, real: {res}"
+    elif not (res[0] == "ok" and res[1] == mr["ok"] and res[2] == mr["nargs"]):
+        return f"model: {mr}, real: {res}"
+    if obs["count"] != m["count"]:
+        return f"invocations: real={obs['count']} model={m['count']}"
+    return None
+
+
+def run_direct(ck: core.Check, env: Env):
+    stats = {"cases": 0, "mismatches": 0, "results": {}}
+    if getattr(env.graph, "subgraph", None) is None:
+        ck.broken("correspondence", "C19 facet of spox not observable", "spox._graph.subgraph (direct entry point) not found")
+        return stats
+    cases = direct_cases(ck)
+    try:
+        models = ck.driver().ask_many("C19", [direct_request(c) for c in cases])
+    except Exception as e:  # noqa: BLE001
+        ck.broken("correspondence", "C19 driver (direct)", str(e))
+        models = []
+    if len(models) != len(cases):
+        models = [None] * len(cases)
+    for case, m in zip(cases, models):
+        try:
+            obs = run_direct_case(env, case)
+        except Exception as e:  # noqa: BLE001
+            if stats["cases"] == 0:
+                ck.broken("correspondence", "C19 direct subgraph() case not observable", f"{type(e).__name__}: {e}\n{core.fmt_exc()[-500:]}")
+            continue
+        stats["cases"] += 1
+        k = obs["result"][0] if obs["result"][0] == "ok" else obs["result"][1]
+        stats["results"][k] = stats["results"].get(k, 0) + 1
+        ck.count(("direct", case["types"], repr(case["tys"]), repr(sorted(case["cb"].items()))))
+        for key, what in judge_direct(case, obs):
+            ck.failure(key, what, {"kind": "direct", "case": case})
+        if m is not None:
+            d = compare_direct(case, obs, m)
+            if d:
+                stats["mismatches"] += 1
+                if stats["mismatches"] <= 3:
+                    ck.broken("correspondence", "C19 model-vs-implementation (direct subgraph())", f"case={case} :: {d}")
+    ck.cov["direct_subgraph"] = stats
+    return stats
+
+
 # ----------------------------------------------------------------------------- nested control flow
 def run_nested(ck: core.Check, env: Env):
     import sys
@@ -1749,6 +1931,8 @@ def _run(ck: core.Check, env: Env, info):
                     ck.broken("correspondence", "C19 model-vs-implementation", f"case={case} :: {d}")
     # ---- nested control flow: callbacks that call control-flow constructors themselves (depth 2-3)
     nstats = run_nested(ck, env)
+    # ---- the documented-internal entry point itself: subgraph(types, fun)
+    run_direct(ck, env)
     # ---- onnxruntime: bodies that use their arguments
     n_ort = 0
     for mod in env.mods:
@@ -1802,6 +1986,14 @@ def replay(ck: core.Check, doc) -> bool:
     env = Env()
     key = doc.get("key")
     known = {f["key"] for f in core.load_findings() if f["property"] == "C19" and f.get("status") == "known"}
+    if case.get("kind") == "direct":
+        hit = False
+        obs = run_direct_case(env, case["case"])
+        for k, what in judge_direct(case["case"], obs):
+            mine = (k == key) if key else (k not in known)
+            print(("* " if mine else "  ") + f"{k}: {what}")
+            hit = hit or mine
+        return hit
     if case.get("kind") == "nested":
         import sys
 
